@@ -27,6 +27,25 @@ HARNESSES = [
     H("k_probes_from_flags", "K-def-flags", ["C10"], fns=["probes_from_flags"]),
     H("k_with_params_flags", "K-def-flags", ["C01", "C09", "C10", "C11"],
       fns=["CompressorOxide::with_params", "ParamsOxide::new", "DictOxide::new", "change_window_bits_from_format"], cost=20),
+    # ---- K-zhdr (compressor side of the zlib header) ----
+    H("k_add_fcheck", "K-zhdr", ["C09"], fns=["add_fcheck"]),
+    H("k_header_from_flags", "K-zhdr", ["C09", "C11"], fns=["header_from_flags", "header_from_level", "zlib_level_from_flags", "add_fcheck"]),
+    H("k_zlib_level_from_flags", "K-zhdr", ["C09"], fns=["zlib_level_from_flags"]),
+    # ---- K-tables / K-inf-leaf / K-prologue (decoder) ----
+    H("k_inf_tables", "K-tables", ["C03", "C04", "C05", "C10"],
+      fns=["LENGTH_BASE", "LENGTH_EXTRA", "DIST_BASE", "num_extra_bits_for_distance_code", "HUFFMAN_LENGTH_ORDER", "MIN_TABLE_SIZES"]),
+    H("k_start_static_table", "K-tables", ["C03"], fns=["start_static_table"], cost=20),
+    H("k_undo_bytes", "K-inf-leaf", ["C06", "C07", "C19"], fns=["undo_bytes"]),
+    H("k_end_of_input", "K-inf-leaf", ["C04", "C13"], fns=["end_of_input"]),
+    H("k_validate_zlib_header", "K-inf-leaf", ["C03", "C04", "C09"], fns=["validate_zlib_header"]),
+    H("k_prologue_bad_geometry", "K-prologue", ["C05", "C08"], fns=["decompress_with_limit (prologue)"], cost=30,
+      strength="F in all scalars and tables; B(out<=16,in<=4 bytes)"),
+    H("k_prologue_failure_absorbing_a", "K-prologue", ["C04", "C05", "C08", "C09", "C13"], fns=["decompress_with_limit (prologue, failure exit, epilogue)"], cost=50,
+      strength="F in all scalars and tables; B(out<=16,in<=4 bytes)"),
+    H("k_prologue_failure_absorbing_b", "K-prologue", ["C04", "C05", "C08", "C09", "C13"], fns=["decompress_with_limit (prologue, failure exit, epilogue)"], cost=50,
+      strength="F in all scalars and tables; B(out<=16,in<=4 bytes)"),
+    H("k_prologue_done_forever", "K-prologue", ["C06", "C08", "C09", "C13", "C16"], fns=["decompress_with_limit (DoneForever exit, epilogue checksum verdict)"], cost=30,
+      strength="F in all scalars and tables; B(out<=16,in<=4 bytes)"),
     # ---- K-lenDist ----
     H("k_lz_one_match_roundtrip", "K-lenDist", ["C01", "C02", "C10"], cost=40,
       fns=["record_match", "compress_lz_codes", "LZOxide::new", "LZOxide::write_code", "LZOxide::init_flag", "LZOxide::get_flag",
